@@ -810,6 +810,98 @@ def build_tk(tk, raw):
     return t
 
 
+def adjoint_and_batch_stream(rep, rng, count):
+    """Oracle-only stream on the real objects, outside the integer-coded model: (a) circuits with
+    the ADJOINTS of the named gates (S.dagger(), T.dagger(), Y.dagger(), daggered controlled gates):
+    the exported tket circuit, run on the exact simulator and post-processed, gives the circuit's
+    own mixed evaluation, and so does the re-imported circuit; (b) mixed scalars of either sign and
+    (c) several circuits evaluated through one call of a backend returning exact frequencies: every
+    circuit of the batch gets its own distribution."""
+    import tksim
+    from discopy.quantum import gates as G
+    from discopy.quantum.circuit import Circuit, Measure, Id, qubit
+    bad = 0
+
+    class Exact:
+        """A backend that returns exact frequencies (as get_counts expects them)."""
+        def process_circuits(self, circuits, n_shots=None, seed=None):
+            self.circuits = list(circuits)
+            return list(range(len(self.circuits)))
+
+        def get_result(self, handle):
+            tkc = self.circuits[handle]
+
+            class Res:
+                def get_counts(self_inner):
+                    return {k_: float(v) * 2 ** 20 for k_, v in tksim.exact_counts(tkc).items() if v > 1e-12}
+            return Res()
+
+        def default_compilation_pass(self):
+            class P:
+                def apply(self, c):
+                    return None
+            return P()
+
+    def fail(what, payload):
+        nonlocal bad
+        bad += 1
+        rep.count("oracle:adjoint-batch:FAIL")
+        if bad <= 4:
+            rep.violation(what, payload)
+
+    def build():
+        n = rng.randint(1, 2)
+        c = G.Ket(*[0] * n)
+        pool1 = [G.H, G.S, G.T, G.X, G.Y, G.Z, G.S.dagger(), G.T.dagger(), G.Y.dagger(), G.Rx(rng.choice([0.25, 0.125, 0.375])),
+                 G.Rz(rng.choice([0.25, 0.125]))]
+        pool2 = [G.CX, G.CZ, G.SWAP, G.CRz(0.25)]
+        for _ in range(rng.randint(2, 5)):
+            if n == 2 and rng.random() < 0.3:
+                c = c >> rng.choice(pool2)
+            else:
+                off = rng.randint(0, n - 1)
+                c = c >> Id(qubit ** off) @ rng.choice(pool1) @ Id(qubit ** (n - off - 1))
+        return c >> Measure(n)
+    for k in range(count):
+        rep.count("stream:adjoint-batch")
+        try:
+            c = build()
+            if rng.random() < 0.3:
+                c = G.scalar(rng.choice([-1, -0.5, 2]), is_mixed=True) @ c
+            want = np.asarray(c.eval(mixed=True).array, dtype=complex).flatten()
+            t = c.to_tk()
+            got = np.asarray(tksim.distribution(t), dtype=complex).flatten()
+            if got.shape != want.shape or not np.allclose(got, want, atol=1e-9):
+                fail("the exported circuit simulates to %r, the circuit evaluates to %r" % (list(np.round(got, 6)), list(np.round(want, 6))),
+                     {"circuit": repr(c), "commands": [str(x) for x in t.get_commands()]})
+                continue
+            back = Circuit.from_tk(t)
+            again = np.asarray(back.eval(mixed=True).array, dtype=complex).flatten()
+            if again.shape != want.shape or not np.allclose(again, want, atol=1e-9):
+                fail("from_tk(to_tk(c)) evaluates to %r, c to %r" % (list(np.round(again, 6)), list(np.round(want, 6))),
+                     {"circuit": repr(c)})
+                continue
+            # a batch through one backend call
+            c2 = build()
+            if len(c2.cod) == len(c.cod) or True:
+                ev = c.eval(c2, backend=Exact(), n_shots=2 ** 20, compilation=None) \
+                    if False else Circuit.eval(c, c2, backend=Exact(), n_shots=2 ** 20, compilation=None)
+                w1 = want
+                w2 = np.asarray(c2.eval(mixed=True).array, dtype=complex).flatten()
+                g1 = np.asarray(ev[0].array, dtype=complex).flatten()
+                g2 = np.asarray(ev[1].array, dtype=complex).flatten()
+                if g1.shape != w1.shape or g2.shape != w2.shape or not np.allclose(g1, w1, atol=1e-6) \
+                        or not np.allclose(g2, w2, atol=1e-6):
+                    fail("two circuits evaluated through one backend call give %r and %r, alone they evaluate to %r and %r" % (
+                        list(np.round(g1, 5)), list(np.round(g2, 5)), list(np.round(w1, 5)), list(np.round(w2, 5))),
+                        {"first": repr(c), "second": repr(c2)})
+                    continue
+        except Exception as exc:   # noqa
+            fail("adjoint / batch stream raised %s: %s" % (type(exc).__name__, exc), {})
+            continue
+        rep.count("oracle:adjoint-batch:pass")
+
+
 def run(tier, seed):
     import multiprocessing
     import tk_impl as ti
@@ -882,6 +974,7 @@ def run(tier, seed):
             rep.programs += 1
 
     rep.extra["repair_switches"] = dict(FIXED)
+    adjoint_and_batch_stream(rep, random.Random(seed + 1313), 40 if tier == "quick" else 500)
     base.settle(rep, "C13", proof_ok, "C13")
     return rep.finish(
         rule="to_tk: corpus of doc examples and finding reproducers; continuations by <= %d layers (all of them "
